@@ -208,6 +208,13 @@ def gen_case(rng, op):
             return (a, max(0, min(b, M256))), ta + "+near"
         if r > 0.9 and op in ("d_div", "u_div_dec", "d_from_ratio"):
             return (a, 0), ta + "+zero_div"
+        if 0.8 < r <= 0.9 and op in ("d_div", "u_div_dec", "d_from_ratio"):
+            # divisor an exact multiple / divisor of the dividend (also beyond the range where a*10^18 fits)
+            k = rng.choice([2, 3, 4, 5, 7, 10, 16, 1000])
+            big = max(1, a if rng.random() < 0.5 else (M256 // D + 1 + gen.rand_bits(rng, 40)))
+            if rng.random() < 0.5 and big * k <= M256:
+                return (big, big * k), "multiple"
+            return (big - big % k or k, max(1, (big - big % k) // k)), "divisor"
         b, tb = gen.u256(rng)
         return (a, b), ta + "+" + tb
     # u_mulratio(a, n, d)
